@@ -5,6 +5,10 @@ A. Coq: Props/C13.v (buffer transparency, variants_agree for 4 kinds x colour x 
    refuted: F11 fixedstruct field order, F12 '%' in the prepend separator).
 B. real binary stdout (SGR groups abstracted to their class) vs the Coq MODEL (Corr/C13.v, vm_compute)
    on generated scenarios: option cross product x kinds x multi-line messages x names.
+D. what the datetime field denotes (checks/strf_util.py, harness/src/bin/c13.rs in process):
+   chrono format vs Model.Strftime (B1), datetime_parse_from_str vs Model.StrftimeParse.chrono_parse (B2, printed texts
+   and mutations), and the spec "print then parse = the instant truncated to the printed precision" on formats that are
+   complete by construction (C; Coq's rt_ok re-decided on each).
 C. real binary vs the SPEC, no model involved:
    * stdout with colour sequences deleted must equal the independent python rendering
      file field ++ date field ++ line (python datetime for the date), separator after each message;
@@ -15,6 +19,7 @@ import json, os, sys
 from concurrent.futures import ThreadPoolExecutor
 import vlib
 import print_util as pu
+import strf_util
 
 PROP_FILE = "Props/C13.v"
 
@@ -76,13 +81,14 @@ def check_scenario(ctx, sc, r, stats):
 def run(ctx):
     quick = ctx.quick()
     n = 160 if quick else 2500
-    vlib.proof_stage(ctx, PROP_FILE, [], extra_targets=["Corr/C13.vo"])
+    vlib.proof_stage(ctx, PROP_FILE, [], extra_targets=["Corr/C13.vo", "Corr/C13rt.vo"])
     ok, log = vlib.build_s4()
     if not ok:
         ctx.obligation_broken("build", "s4", log)
         return ctx.finish()
     scratch = vlib.scratch_dir("C13")
     rng = ctx.rng
+    strf = strf_util.run(ctx, quick)
     scs = []
     for i in range(n):
         sc = pu.gen_scenario(rng, i, scratch)
@@ -132,8 +138,8 @@ def run(ctx):
         for e in sc["events"]:
             hist_kind[pu.KIND_NAMES[sc["srcs"][e["src"]]["msgs"][e["mi"]]["kind"]]] += 1
     ctx.coverage.update(
-        evaluations=len(scs), distinct_nontrivial=len(nontrivial),
-        rule="scenario = 1-4 generated text logs (ISO-8601 microsecond stamps with zone, multi-line messages, optional missing final newline, names of different / non-ASCII / wide widths) + optionally one fixture (utmp, evtx, journal.gz, windowed) x options (--color always/never, -n/-p, -w, -u/-l(TZ)/-z with hour, half-hour, 45-minute and negative offsets, -d from 9 formats over the modelled specifiers; every 4th scenario is of the class 'finer than a millisecond': a format with %.6f/%.9f/%6f/%9f/%f, zone -u / +05:30 / -09:30 / ..., colour alternating, text logs with 6-9 fractional digits whose consecutive messages differ only below the millisecond or have equal instants, 6 prepend separators, 7 separators with every escape, --blocksz 128/256 for multi-part lines, -a/-b windows); every 4th scenario has a separator with multi-byte UTF-8 characters (arrow, pilcrow+newline, em dashes, emoji, CJK, mixed with escapes); every 4th scenario has lines longer than the 2056-byte print buffer (2055..2058, 4000, 4112, 6168, 70000, 70001 bytes) as the first line and as a later line of a multi-line message, colour alternating and with prepended fields when colour is off (model comparison only below the case size cap, run C always); non-trivial = at least one decoration option on; distinct by the option tuple + source kinds; each scenario is run decorated and undecorated",
+        evaluations=len(scs) + strf.get("print_cases", 0) + strf.get("parse_cases", 0), distinct_nontrivial=len(nontrivial),
+        rule="scenario = 1-4 generated text logs (ISO-8601 microsecond stamps with zone, multi-line messages, optional missing final newline, names of different / non-ASCII / wide widths) + optionally one fixture (utmp, evtx, journal.gz, windowed) x options (--color always/never, -n/-p, -w, -u/-l(TZ)/-z with hour, half-hour, 45-minute and negative offsets, -d from 9 formats over the modelled specifiers; every 4th scenario is of the class 'finer than a millisecond': a format with %.6f/%.9f/%6f/%9f/%f, zone -u / +05:30 / -09:30 / ..., colour alternating, text logs with 6-9 fractional digits whose consecutive messages differ only below the millisecond or have equal instants, 6 prepend separators, 7 separators with every escape, --blocksz 128/256 for multi-part lines, -a/-b windows); every 4th scenario has a separator with multi-byte UTF-8 characters (arrow, pilcrow+newline, em dashes, emoji, CJK, mixed with escapes); every 4th scenario has lines longer than the 2056-byte print buffer (2055..2058, 4000, 4112, 6168, 70000, 70001 bytes) as the first line and as a later line of a multi-line message, colour alternating and with prepended fields when colour is off (model comparison only below the case size cap, run C always); non-trivial = at least one decoration option on; distinct by the option tuple + source kinds; each scenario is run decorated and undecorated; evaluations also counts the in-process print and parse cases of the strftime tie (strftime_print_parse_tie), which are not counted as distinct_nontrivial",
         samples=[pu.sc_public(sc) for sc in case_sc[:3]],
         scenarios_compared_with_model=len(cases), model_disagreements=len(bad_stdout),
         spec_ok=stats["spec_ok"], too_large_for_model_run=stats["too_large_for_model_run"], generator_mismatch=stats["generator_mismatch"], payload_has_esc=stats["payload_has_esc"],
@@ -151,6 +157,7 @@ def run(ctx):
                              coloured=sum(1 for s in scs if s.get("longcls") and s["colour"]),
                              line_sizes=sorted(set(len(l) for s in scs if s.get("longcls") for src in s["srcs"] if not src["fixture"]
                                                    for m in src["msgs"] for l in m["lines"] if len(l) > 2000))),
+        strftime_print_parse_tie=strf,
         sub_millisecond_class=dict(
             scenarios=sum(1 for s in case_sc if s.get("subms")),
             coloured=sum(1 for s in case_sc if s.get("subms") and s["colour"]),
@@ -163,6 +170,8 @@ def run(ctx):
         "display width of names: python east_asian_width/combining approximation of the unicode-width crate (validated by run B, not proved)",
         "the order in which messages are printed (merge by instant) is C01's subject; scenarios avoid cross-source ties",
         "strftime specifiers outside %Y %m %d %H %M %S %.3f %.6f %.9f %3f %6f %9f %f %z %:z %s %T %F %% are outside the model and the generator",
+        "the print/parse tie calls chrono 0.4.40 DateTime::format and s4lib datetime_parse_from_str in process (harness c13) with the format, instant and FixedOffset of the case; the real binary reaches offsets with seconds only through -l in a zone with such an offset",
+        "chrono parse with a timestamp and only SOME of year/month/day/hour/minute is outside the parser model (PUnmodelled, counted, not compared)",
     ]
     return ctx.finish()
 
